@@ -20,7 +20,9 @@ type tagStats struct {
 	next     int64
 	rpcs     map[int64][]string
 	untagged int
-	expect   string // FullMethodName every TagRPC must carry ("" = not checked)
+	nh       int             // number of handlers installed side by side (ids 0..nh-1)
+	depths   map[int64][]int // per RPC and event: how many of those handlers' tags the delivered context carried
+	expect   string          // FullMethodName every TagRPC must carry ("" = not checked)
 	conn     []string
 }
 
@@ -29,7 +31,20 @@ type tsKey struct {
 	conn bool
 }
 
-func newTagStats(id int) *tagStats { return &tagStats{id: id, rpcs: map[int64][]string{}} }
+func newTagStats(id int) *tagStats {
+	return &tagStats{id: id, nh: 1, rpcs: map[int64][]string{}, depths: map[int64][]int{}}
+}
+
+// depth of a context: the number of side-by-side handlers whose TagRPC value it carries
+func (s *tagStats) depth(ctx context.Context) int {
+	d := 0
+	for j := 0; j < s.nh; j++ {
+		if _, ok := ctx.Value(tsKey{j, false}).(int64); ok {
+			d++
+		}
+	}
+	return d
+}
 
 func (s *tagStats) TagRPC(ctx context.Context, info *stats.RPCTagInfo) context.Context {
 	s.mu.Lock()
@@ -39,7 +54,9 @@ func (s *tagStats) TagRPC(ctx context.Context, info *stats.RPCTagInfo) context.C
 	}
 	s.next++
 	s.rpcs[s.next] = []string{"TagRPC"}
-	return context.WithValue(ctx, tsKey{s.id, false}, s.next)
+	out := context.WithValue(ctx, tsKey{s.id, false}, s.next)
+	s.depths[s.next] = []int{s.depth(out)} // the context TagRPC returns
+	return out
 }
 
 func (s *tagStats) HandleRPC(ctx context.Context, ev stats.RPCStats) {
@@ -70,6 +87,7 @@ func (s *tagStats) HandleRPC(ctx context.Context, ev stats.RPCStats) {
 		return
 	}
 	s.rpcs[tag] = append(s.rpcs[tag], name)
+	s.depths[tag] = append(s.depths[tag], s.depth(ctx))
 }
 
 func (s *tagStats) TagConn(ctx context.Context, _ *stats.ConnTagInfo) context.Context {
@@ -129,7 +147,9 @@ func (s *tagStats) connEvents() []string {
 func newStatsSet(n int) []*tagStats {
 	var hs []*tagStats
 	for i := 0; i < n; i++ {
-		hs = append(hs, newTagStats(i))
+		h := newTagStats(i)
+		h.nh = n
+		hs = append(hs, h)
 	}
 	return hs
 }
@@ -161,6 +181,21 @@ func emitStats(em *Emitter, idx *int, kind string, desc map[string]any, tags []s
 		em.Emit(Rec{Idx: *idx, Kind: kind, Desc: d, Obs: map[string]any{"events": evs, "stray": stray},
 			Tags: append(append([]string(nil), tags...), fmt.Sprintf("handlers=%d", len(hs))),
 			Coq:  fmt.Sprintf("CStats %s %d %d %s %s %s %d", exit, len(hs), i, coqBool(finished), coqBool(succ), coqList(evs), stray)})
+		// the tag clause (same scenario index): every event with the depth of the context it was delivered with
+		h.mu.Lock()
+		ds := append([]int(nil), h.depths[n]...)
+		h.mu.Unlock()
+		var pairs []string
+		for j, e := range evs {
+			dj := -1
+			if j < len(ds) {
+				dj = ds[j]
+			}
+			pairs = append(pairs, fmt.Sprintf("(%s, %s)", e, coqZ(int64(dj))))
+		}
+		em.Emit(Rec{Idx: *idx, Kind: kind + "-ctx", Desc: d, Obs: map[string]any{"events": evs, "depths": ds},
+			Tags: append(append([]string(nil), tags...), fmt.Sprintf("handlers=%d", len(hs)), "clause=context-tagging"),
+			Coq:  fmt.Sprintf("CStatsCtx %s %d %d %s", exit, len(hs), i, coqList(pairs))})
 		*idx++
 	}
 }
